@@ -13,6 +13,7 @@ import (
 	"sync"
 	"time"
 
+	"github.com/evolbioinfo/gotree/hashmap"
 	"github.com/evolbioinfo/gotree/support"
 	"github.com/evolbioinfo/gotree/tree"
 )
@@ -191,12 +192,60 @@ func runPipeline(kind string, ref *tree.Tree, cpus int, feed func(ch chan<- tree
 				}
 				res.records = append(res.records, fmt.Sprintf("%d|%s|%s|%s|%v|%s", st.Id, norm(st.Tree1), norm(st.Tree2), norm(st.Common), st.Sametree, e))
 			}
-		case "fbp", "tbe":
+		case "hashmap":
+			// the split-keyed map itself, written and read by several goroutines (its RWMutex): every tree of the
+			// stream is indexed by some goroutine; the final content must be that of the single-threaded run
+			hm := hashmap.NewHashMap(4, 0.75)
+			var wg sync.WaitGroup
+			for g := 0; g < cpus; g++ {
+				wg.Add(1)
+				go func() {
+					defer wg.Done()
+					for it := range in {
+						if it.Err != nil || it.Tree == nil {
+							continue
+						}
+						for _, e := range it.Tree.Edges() {
+							if v, ok := hm.Value(e); ok {
+								_ = v
+							} else {
+								hm.PutValue(e, 1)
+							}
+						}
+					}
+				}()
+			}
+			wg.Wait()
+			pr := project(ref, ProjOpt{})
+			for _, k := range hm.Keys() {
+				e := k.(*tree.Edge)
+				side := []string{}
+				for i := uint(0); i < e.Bitset().Len(); i++ {
+					if e.Bitset().Test(i) {
+						side = append(side, pr.tipNames()[i])
+					}
+				}
+				if len(side)*2 > len(pr.tipNames()) || (len(side)*2 == len(pr.tipNames()) && len(side) > 0 && side[0] != pr.tipNames()[0]) {
+					side = complement(pr.tipNames(), side)
+				}
+				res.records = append(res.records, strings.Join(side, ","))
+			}
+		case "fbp", "tbe", "tbe-moved":
 			var err error
 			if kind == "fbp" {
 				err = support.FBP(ref, in, cpus, nil)
-			} else {
+			} else if kind == "tbe" {
 				_, err = support.TBE(ref, in, cpus, false, false, false, 0.3, nil, nil)
+			} else {
+				// with the per-taxon tallies (shared between the workers of one bootstrap tree, under a mutex)
+				lf, _ := os.CreateTemp("", "tbelog")
+				_, err = support.TBE(ref, in, cpus, true, true, true, 0.3, lf, nil)
+				lf.Close()
+				b, _ := os.ReadFile(lf.Name())
+				os.Remove(lf.Name())
+				for _, ln := range strings.Split(string(b), "\n") {
+					res.records = append(res.records, "log|"+ln)
+				}
 			}
 			if err != nil {
 				res.err = err.Error()
@@ -503,7 +552,7 @@ func init() {
 			r := rand.New(rand.NewSource(s))
 			ntrees := 1 + r.Intn(12)
 			pi := genPoolInput(r, ntrees, 12)
-			kind := []string{"compare", "cmpw", "fbp", "tbe"}[r.Intn(4)]
+			kind := []string{"compare", "cmpw", "fbp", "tbe", "tbe-moved", "hashmap"}[r.Intn(6)]
 			threads := []int{1, 2, 3, 4, 16, ntrees + 3}[r.Intn(6)]
 			errAt := 0
 			mismatch := false
